@@ -156,6 +156,9 @@ def sampling_estimate(
     shots_map = distribute_shots_among_pauli_sets(
         op, measurements, shots_allocator, total_shots
     )
+    # Groups that receive no shots are not sampled: drop them so that the i-th
+    # returned count map is paired with the i-th remaining group.
+    measurements = [m for m in measurements if shots_map[m.pauli_set] > 0]
     circuit_and_shots = circuit_shot_pair_prep_fn(state, measurements, shots_map)
     sampling_counts = sampler(circuit_and_shots)
     return get_estimate_from_sampling_result(op, measurements, const, sampling_counts)
